@@ -740,6 +740,10 @@ impl<NumericTypes: EvalexprNumericTypes> Node<NumericTypes> {
                 }
             } else {
                 // println!("Inserting as specified");
+                // A binary operator takes its left operand by rotation, so it cannot start an operand.
+                if node.operator().max_argument_amount() == Some(2) {
+                    return Err(EvalexprError::wrong_operator_argument_amount(0, 2));
+                }
                 self.children.push(node);
                 Ok(())
             }
